@@ -5,6 +5,7 @@
 package worker
 
 //@ func NewGroup
+//@   assigns nothing
 //@   requires numWorkers >= 0
 //@   ensures[C13] one-worker-per-step: len(result) == numWorkers && fresh(result) && !isnil(result)
 //@   ensures[C13] workers-nonnil: forall j in 0..numWorkers :: result[j] != nil
